@@ -104,7 +104,8 @@ def run(ctx):
     ctx.correspond([f"aes.enc {hx(g.rbytes(rng, n))} {hx(g.rbytes(rng, m))}" for n, m in
                     [(0, 16), (15, 16), (17, 16), (16, 15), (16, 17), (16, 0), (33, 16)]], "aes.bad")
     ad = []
-    for n in list(range(0, 101)) + [rng.randrange(100, 1500) for _ in range(20 if ctx.quick else 300)]:
+    big = [4095, 4096, 4097, 8193] if ctx.quick else [4095, 4096, 4097, 4112, 8192, 8193, 16385, 65535, 65536, 65537]
+    for n in list(range(0, 101)) + [rng.randrange(100, 1500) for _ in range(20 if ctx.quick else 300)] + big:
         d = g.gen_payload(rng, 10) if n == 0 else g.rbytes(rng, n)
         if n == 0:
             d = b""
